@@ -333,6 +333,9 @@ def templates(tier, server, fbd):
     L.append(T("close-empty+more", ("frame", 8, ("lit", b""), True, 0), ("sym", 2)))
     # text messages with free payload, fragmented, with a ping interleaved
     L.append(T("text-frag", ("frame", 1, ("sym", 2), False, 0), ("frame", 9, ("sym", 1), True, 0), ("frame", 0, ("sym", 2 if q else 3), True, 0)))
+    # a close frame with a free status code and reason arriving between the fragments of a text message whose first fragment may end
+    # inside a multi-octet code point (the close reason is judged on its own, independent of the message in progress)
+    L.append(T("text-frag+close", ("frame", 1, ("sym", 1), False, 0), ("frame", 8, ("sym", 3 if q else 5), True, 0)))
     L.append(T("text-1frame", ("frame", 1, ("sym", 4 if q else 5), True, 0)))
     L.append(T("bin+ping+pong", ("frame", 2, ("sym", 2), True, 0), ("frame", 9, ("sym", 2), True, 0), ("frame", 10, ("sym", 1), True, 0)))
     return L
